@@ -37,10 +37,10 @@ FAMILIES = {
     # equal local ids in different containers, many 'precedes': edges between like-named tasks
     "dupprec": dict(dupid=0.95, nest=0.85, depth=2, precedes=0.6, dep=0.8, rel=0.5, ntasks=(4, 9), gap=[0, 0, 60, 120], contdep=0.1),
     "deps": dict(dupid=0.4, nest=0.6, depth=3, dep=0.8, precedes=0.3, rel=0.5, contdep=0.5, contstart=0.3, onstart=0.25, pin=0.15,
-                 gap=[0, 60, 120, 480, 1440, 90, 30], ntasks=(3, 9), hours=0.2),
+                 gap=[0, 60, 120, 480, 1440, 90, 30, 2880, 10080], ntasks=(3, 9), hours=0.2),
     "coredeps": dict(dupid=0.3, nest=0.6, depth=3, dep=0.8, precedes=0.3, rel=0.5, contdep=0.5, contstart=0.3, onstart=0.25, pin=0.15,
-                     gap=[0, 60, 120, 480, 1440], ntasks=(3, 9), rdaily=0.2, team=0.2, G=[3600, 3600, 1800]),
-    "alap": dict(alap=1.0, dupid=0.5, nest=0.5, dep=0.7, gap=[0, 0, 60, 120, 480], onstart=0.0, precedes=0.1, pin=0.0, milestone=0.1,
+                     gap=[0, 60, 120, 480, 1440, 2880, 10080], ntasks=(3, 9), rdaily=0.2, team=0.2, G=[3600, 3600, 1800]),
+    "alap": dict(alap=1.0, dupid=0.5, nest=0.5, dep=0.7, gap=[0, 0, 60, 120, 480, 1440], onstart=0.0, precedes=0.1, pin=0.0, milestone=0.1,
                  efforts=[60, 120, 240, 480, 90, 45], effs=["1.0", "1.0", "0.5", "2.0"], contdep=0.2, ntasks=(2, 6)),
     # backward projects inside the dialect of Model/Alap.v (whole-slot efforts and gaps, no on-start edges)
     "alapcore": dict(alap=1.0, dupid=0.3, nest=0.5, dep=0.7, gap=[0, 0, 60, 120, 480], onstart=0.0, precedes=0.1, pin=0.0,
